@@ -5,7 +5,7 @@ sys.path.insert(0, os.path.dirname(os.path.abspath(__file__)))
 import common, topofam
 from symbols import coq_val
 
-KIND = {"pipe": "TPipe", "sink": "TSink", "zip": "TZip", "combine": "TCombine"}
+KIND = {"pipe": "TPipe", "sink": "TSink", "zip": "TZip", "combine": "TCombine", "rsink": "TRSink"}
 
 
 def nl(l):
@@ -15,6 +15,9 @@ def nl(l):
 def coq_op(op):
     k = op[0]
     if k == "new":
+        if op[1] in ("combine_on", "combine_on0"):
+            # emit_on = the first input, given as a stream / by position: the same node of the model
+            return "ONew (TCombineOn %d) %s" % (op[2][0], nl(op[2]))
         return "ONew %s %s" % (KIND[op[1]], nl(op[2]))
     if k == "emit":
         return "OEmit %d %s" % (op[1], coq_val(op[2]))
@@ -26,6 +29,10 @@ def coq_op(op):
         return "ODestroy %d" % op[1]
     if k == "drop":
         return "ODrop %d" % op[1]
+    if k == "remit":
+        ed = op[4]
+        e = {"connect": "EConnect %d %d", "disconnect": "EDisconnect %d %d", "destroy": "EDestroy %d"}[ed[0]] % tuple(ed[1:])
+        return "ORemit %d %s %d (%s)" % (op[1], coq_val(op[2]), op[3], e)
     raise KeyError(k)
 
 
@@ -192,9 +199,104 @@ def gen_reentrant(rng):
     return {"ops": ops}
 
 
+def gen_reentrant2(rng):
+    """re-entrant edits on a random small graph (every node stays referenced): pipes, sinks, zips, combine_latest nodes
+    and one or two reactive sinks anywhere; data before; then emissions during which a reactive sink connects /
+    disconnects / destroys ANY part of the graph (an edge of a loop that is running, of one that has finished, of one
+    that has not started yet; an input of a combining node with or without backlog), each followed by plain emits.
+    Edits of a later round only involve nodes whose links are certainly unchanged by the earlier ones."""
+    ops, kinds, ups = [], [], {}
+
+    def new(kind, u):
+        ops.append(["new", kind, list(u)])
+        kinds.append(kind)
+        ups[len(kinds) - 1] = list(u)
+        return len(kinds) - 1
+
+    def paths(extra=None):
+        cnt, worst = {}, 1
+        for i in range(len(kinds)):
+            u = list(ups[i]) + ([extra[0]] if extra and extra[1] == i else [])
+            cnt[i] = max(1, sum(cnt.get(a, 1) for a in u))
+            worst = max(worst, cnt[i])
+        return worst
+    nsrc = rng.choice([1, 1, 2, 2, 3])
+    for _ in range(nsrc):
+        new("pipe", [])
+    n_nodes = rng.randint(4, 9)
+    n_rs = 0
+    while len(kinds) < nsrc + n_nodes:
+        non_sinks = [i for i in range(len(kinds)) if kinds[i] not in ("sink", "rsink")]
+        kind = rng.choice(["pipe", "pipe", "pipe", "sink", "sink", "zip", "combine", "rsink", rng.choice(["zip", "combine", "combine_on", "combine_on0"])])
+        if kind == "rsink" and n_rs >= 2:
+            kind = "sink"
+        if kind in ("sink", "rsink"):
+            new(kind, [rng.choice(non_sinks)])
+            n_rs += kind == "rsink"
+        else:
+            k = rng.choice([1, 1, 2]) if kind == "pipe" else rng.choice([1, 2, 2, 3])
+            new(kind, rng.sample(non_sinks, min(k, len(non_sinks))))
+            if paths() > 16:
+                ops.pop(); kinds.pop(); del ups[len(kinds)]
+    if n_rs == 0:
+        new("rsink", [rng.choice([i for i in range(len(kinds)) if kinds[i] not in ("sink", "rsink")])])
+    rsinks = [i for i in range(len(kinds)) if kinds[i] == "rsink"]
+    emitters = [i for i in range(len(kinds)) if kinds[i] not in ("sink", "rsink")]
+    srcs = list(range(nsrc))
+    v = 0
+    for _ in range(rng.choice([0, 1, 2, 4])):
+        v += 1
+        ops.append(["emit", rng.choice(srcs), v])
+    touched = set()
+    for _round in range(rng.choice([1, 1, 2, 3])):
+        free = [i for i in range(len(kinds)) if i not in touched]
+        cands = []
+        for d in free:
+            for u in ups[d]:
+                if u in free:
+                    cands.append(["disconnect", u, d])
+        for d in free:
+            for u in free:
+                if u < d and kinds[u] not in ("sink", "rsink") and u not in ups[d] and paths((u, d)) <= 16:
+                    cands.append(["connect", u, d])
+        for m in free:
+            if all(u in free for u in ups[m]):
+                cands.append(["destroy", m])
+        if not cands:
+            break
+        want = rng.choice(["disconnect", "disconnect", "connect", "destroy"])
+        pool = [c for c in cands if c[0] == want] or cands
+        ed = rng.choice(pool)
+        t = rng.choice(rsinks)
+        # emit at a node from which the reactive sink is reachable (mostly), so that the edit usually happens
+        anc, todo = set(), [t]
+        while todo:
+            a = todo.pop()
+            for u in ups[a]:
+                if u not in anc:
+                    anc.add(u)
+                    todo.append(u)
+        start = [i for i in emitters if i in anc] if rng.random() < 0.85 else emitters
+        n = rng.choice(start or emitters)
+        v += 1
+        ops.append(["remit", n, v, t, ed])
+        # the generator does not know whether the reactive sink was reached: from now on the links of the nodes the
+        # edit involves count as unknown
+        if ed[0] == "destroy":
+            touched.add(ed[1]); touched.update(ups[ed[1]])
+        else:
+            touched.add(ed[1]); touched.add(ed[2])
+        for _ in range(rng.choice([1, 2, 3])):
+            v += 1
+            ops.append(["emit", rng.choice(srcs if rng.random() < 0.7 else emitters), v])
+    return {"ops": ops}
+
+
 def gen(rng, tier):
     if rng.random() < 0.12:
         return gen_reentrant(rng)
+    if rng.random() < 0.12:
+        return gen_reentrant2(rng)
     if rng.random() < 0.2:
         return gen_backlog(rng)
     if rng.random() < 0.1:
@@ -306,6 +408,14 @@ def oracle(case, obs):
                     out.append(("C15", "C15/links-inconsistent/dead-upstream", "after step %d: %d has a collected upstream" % (step, i)))
                 elif i not in links[u][2]:
                     out.append(("C15", "C15/links-inconsistent/up-without-down/%s" % kinds[i], "after step %d (%s): %d lists %d upstream but is not among its downstreams" % (step, op, i, u)))
+        # (1b) destroy detaches the node from ALL its upstream sources (also when done from inside a callback)
+        dn = None
+        if op[0] == "destroy" and not o["raised"]:
+            dn = op[1]
+        if op[0] == "remit" and op[4][0] == "destroy" and o.get("edit_done") and not o.get("edit_raised"):
+            dn = op[4][1]
+        if dn is not None and dn < len(links) and links[dn][0] and links[dn][1]:
+            out.append(("C15", "C15/destroy/still-attached", "after step %d (%s): node %d was destroyed but still lists the upstreams %r" % (step, op, dn, links[dn][1])))
         # (2) deliveries exactly along the edges that existed before this op (for emits: current edges)
         prev = obs[step - 1]["links"] if step > 0 else []
         for (s, d, x) in o["deliv"]:
@@ -315,7 +425,21 @@ def oracle(case, obs):
                 out.append(("C15", "C15/delivery-off-edge", "step %d: %d delivered to %d, not a current edge" % (step, s, d)))
         if op[0] == "remit":
             if o["raised"]:
-                out.append(("C15", "C15/reentrant-edit/emit-raises", "step %d (%s): the emit raised %s: an edit made from inside a consumer callback broke the delivery in progress" % (step, op, o["raised"])))
+                # a combining node detached by the edit and still served from the snapshot of a loop that was already
+                # running: its update raises (zip: self.buffers[who] KeyError; combine_latest: upstreams.index(who)
+                # ValueError) and unwinds the whole emission
+                ed = op[4]
+                tgt = ed[2] if ed[0] == "disconnect" else (ed[1] if ed[0] == "destroy" else None)
+                last = o["deliv"][-1] if o["deliv"] else None
+                if (o.get("edit_done") and tgt is not None and last is not None and last[1] == tgt and tgt < len(kinds)
+                        and kinds[tgt] in ("zip", "combine", "combine_on", "combine_on0")
+                        and o["raised"] == ("KeyError" if kinds[tgt] == "zip" else "ValueError")
+                        and tgt < len(prev) and last[0] in prev[tgt][1] and last[0] not in links[tgt][1]):
+                    out.append(("C15", "C15/reentrant-edit/detached-input-still-served/%s" % ("zip" if kinds[tgt] == "zip" else "combine"),
+                                "step %d (%s): node %d was detached from its input %d by the edit made inside the callback, was still handed the element by the running loop of %d (snapshot of the downstream set) and raised %s; the emission was aborted, later siblings never got the element"
+                                % (step, op, tgt, last[0], last[0], o["raised"])))
+                else:
+                    out.append(("C15", "C15/reentrant-edit/emit-raises", "step %d (%s): the emit raised %s: an edit made from inside a consumer callback broke the delivery in progress" % (step, op, o["raised"])))
                 return out
             if o.get("edit_raised"):
                 out.append(("C15", "C15/reentrant-edit/edit-raises", "step %d (%s): the edit made inside the callback raised %s" % (step, op, o["edit_raised"])))
@@ -365,7 +489,7 @@ def oracle(case, obs):
         if op[0] == "drop":
             pass
         for z, t in trig.items():
-            if t is None or (op[0] == "emit" and op[1] == z):      # (an emit AT the node itself goes straight to its downstreams)
+            if t is None or (op[0] in ("emit", "remit") and op[1] == z):      # (an emit AT the node itself goes straight to its downstreams)
                 continue
             emitted = [x for (s_, d, x) in o["deliv"] if s_ == z]
             if emitted and not any(s_ == t and d == z for (s_, d, x) in o["deliv"]):
@@ -376,28 +500,40 @@ def oracle(case, obs):
     #     no complete tuple may stay unpaired after any operation
     fifo = {}      # zip node -> {upstream: [values waiting]}
     nnodes = 0
+
+    def edit_fifo(ed):
+        if ed[0] == "connect" and ed[2] in fifo:
+            fifo[ed[2]][ed[1]] = []
+        if ed[0] == "disconnect" and ed[2] in fifo:
+            fifo[ed[2]].pop(ed[1], None)
+        if ed[0] == "destroy" and ed[1] in fifo:
+            fifo[ed[1]] = {}
     for step, (op, o) in enumerate(zip(case["ops"], obs)):
         if op[0] == "new":
             if op[1] == "zip":
                 fifo[nnodes] = {u: [] for u in op[2]}
             nnodes += 1
         if o["raised"]:
+            if op[0] == "remit":
+                return out          # (aborted emission: reported above or a known finding; the bookkeeping below is void)
             continue
-        if op[0] == "connect" and op[2] in fifo:
-            fifo[op[2]][op[1]] = []
-        if op[0] == "disconnect" and op[2] in fifo:
-            fifo[op[2]].pop(op[1], None)
-        if op[0] == "destroy" and op[1] in fifo:
-            fifo[op[1]] = {}
-        for (s_, d, x) in o["deliv"]:
+        if op[0] in ("connect", "disconnect", "destroy"):
+            edit_fifo(op)
+        # an edit made inside the emission takes effect when the reactive sink is first handed an element
+        cut = None
+        if op[0] == "remit" and o.get("edit_done") and not o.get("edit_raised"):
+            cut = next((k for k, (s_, d, x) in enumerate(o["deliv"]) if d == op[3]), None)
+        for k, (s_, d, x) in enumerate(o["deliv"]):
             if d in fifo and s_ in fifo[d]:
                 fifo[d][s_].append(x)
-            if s_ in fifo:
-                # the zip emitted one tuple downstream: one element of every current input was consumed
-                pass
+            if cut is not None and k == cut:
+                edit_fifo(op[4])
+        prev_links = obs[step - 1]["links"] if step > 0 else []
         # tuples emitted by each zip in this step (count each emission once, not once per downstream)
         for zn, f in fifo.items():
             downs_now = o["links"][zn][2] if zn < len(o["links"]) else []
+            if op[0] == "remit" and not (zn < len(prev_links) and prev_links[zn][2]):
+                downs_now = []        # nobody listened when the step began: what the zip paired then cannot be observed
             emitted = [x for (s_, d, x) in o["deliv"] if s_ == zn]
             ntuples = len(emitted) // max(1, len(set(d for (s_, d, x) in o["deliv"] if s_ == zn))) if emitted else 0
             for _ in range(ntuples):
@@ -448,9 +584,9 @@ def run(prop, tier, seed, replay=None):
                 out.violation(sig, msg, {"case": c})
                 nfind += 1
             break
-    # (combine_latest with an explicit emit_on is not in the Coq topology model: oracle only)
+    # every generated history is compared with the Coq model (combine_latest with an explicit emit_on and re-entrant
+    # edits included)
     cos_all = cos
-    cos = [(c, o) for (c, o) in cos_all if not any((op[0] == "new" and op[1] in ("combine_on", "combine_on0", "rsink")) or op[0] == "remit" for op in c["ops"])]
     mism, errors = correspondence("C15", cos)
     for p, o in errors:
         out.violation("C15/correspondence-error", "coqc failed: %s" % o[-300:], {"file": p}, no_input=True)
@@ -460,9 +596,10 @@ def run(prop, tier, seed, replay=None):
     if not proof["ok"]:
         out.violation("C15/proof/%s" % proof["failing"], "proof obligation no longer checks: %s" % proof["failing"],
                       {"theorem_or_file": proof["failing"], "log": proof["log"][-2000:]}, no_input=True)
-    cov = {"evaluations": len(cos_all), "distinct_nontrivial": len(nontriv), "cases_oracle_only(emit_on combine / re-entrant edits)": len(cos_all) - len(cos),
+    cov = {"evaluations": len(cos_all), "distinct_nontrivial": len(nontriv), "cases_oracle_only": len(cos_all) - len(cos),
+           "cases_with_emit_on_combine": sum(1 for (c, o) in cos_all if any(op[0] == "new" and op[1] in ("combine_on", "combine_on0") for op in c["ops"])),
            "cases_with_reentrant_edit": sum(1 for (c, o) in cos_all if any(op[0] == "remit" for op in c["ops"])),
-           "rule": "random histories of node creation, emit, connect, disconnect (incl. non-edges), destroy and drop-reference (+ forced gc) over pipe/sink/zip/combine_latest nodes, no parallel edges, edits before and after data; non-trivial = at least one edit and one delivery",
+           "rule": "random histories of node creation, emit, connect, disconnect (incl. non-edges), destroy and drop-reference (+ forced gc) over pipe/sink/zip/combine_latest (with and without emit_on, by stream and by position) nodes, no parallel edges, edits before and after data; focused backlog / emit_on scenarios; emissions during which a reactive sink edits the graph from inside its callback (focused parent/sibling scenario and random small graphs); non-trivial = at least one edit and one delivery",
            "op_histogram": hist, "traces_validated_against_impl": len(cos) - len(mism), "disagreements_checked": len(mism),
            "samples": [cos[0][0]] if cos else []}
     return out.finish(proof, cov)
